@@ -21,10 +21,15 @@ open Marwood.Heap (GcState)
 def CodeObj (m : LambdaM) : Prop := ProcShape m ∨ ∃ id, m = entryLam id
 
 /-- the heap's lambda object `cl` is a loading of the model's code object `m`: its cells are `Enc`-related
-    to the symbolic code, and an `IofArgument` source only arises from an `iofArgument` source of the model -/
+    to the symbolic code, an `IofArgument` source only arises from an `iofArgument` source of the model, and the
+    environment map has as many entries as the model's (`EnvironmentMap::new_from_iof` builds it from the same
+    formals, internal definitions and free symbols; the order within the last two groups is the iteration order of a
+    `HashSet`, which the model does not fix — the length does not depend on it). In particular the loaded object
+    captures (non-empty map) exactly when the model's does. -/
 structure LoadedLam (m : LambdaM) (cl : CLambda) : Prop where
   bc : EncList m.bc cl.bc
   iof : ∀ y ∈ cl.envmap, ∀ n, y.2 = Source.iofArg n → ∃ x ∈ m.envmap, x.2 = Vm.Source.iofArgument n
+  envLen : cl.envmap.length = m.envmap.length
 
 def needStep (m : Nat) (c : VCell) : Nat :=
   match c with
